@@ -199,7 +199,18 @@ def r3(ck, F):
                 return False
             acc = [p for p in PathEval(b).run() if p.end == "return" and show(p.ret) != "0"]
             k = "cares_about_target: a directive with field names never matches a bare target (would_enable agrees with filtering)"
-            if acc and all(empty_known(p) for p in acc):
+
+            def empty_true(p):      # ... and with the right polarity: accepted because the list *is* empty
+                for c in p.conds:
+                    t = show(c[0])
+                    if "field_names" in t and t.startswith("is_empty("):
+                        return c[1] != 0
+                    if "field_names" in t and "len(" in t and (" Eq 0)" in t):
+                        return c[1] != 0
+                return True
+            if acc and all(empty_known(p) for p in acc) and not all(empty_true(p) for p in acc):
+                ck.bad("C11.R3", k, where(b.raw["sp"]), "a row accepts a bare target because the directive *has* field names (and rejects the ones without)", fn=b.path)
+            elif acc and all(empty_known(p) for p in acc):
                 ck.ok("C11.R3", k, fn=b.path)
             else:
                 ck.bad("C11.R3", k, where(b.raw["sp"]), "a row accepts without having looked at field_names: Targets parsed from `t[{f}]=lvl` make would_enable "
@@ -211,6 +222,29 @@ def r3(ck, F):
                 ck.ok("C11.R3", "StaticDirective: field-name constraints apply to events only", fn=b.path)
             else:
                 ck.bad("C11.R3", "StaticDirective: field-name constraints apply to events only", where(b.raw["sp"]), "span rows %s" % span_rows, fn=b.path)
+            # ... and do apply to them: an event is accepted by a directive with field names only after every name was
+            # looked up in the event's field set (loop run to exhaustion / all() / any())
+            k2 = "StaticDirective: an event matches a directive with field names only if it has every one of them"
+            badp = 0
+            nacc = 0
+            for pth in PathEval(b, max_visits=3).run():
+                if pth.end != "return" or show(pth.ret) == "0":
+                    continue
+                cs = [(show(c[0]), c[1]) for c in pth.conds]
+                ev = [v for t, v in cs if t.startswith("is_event(")]
+                emp = [v for t, v in cs if t.startswith("is_empty(") and "field_names" in t]
+                if not ev or ev[0] == 0:
+                    continue            # a span (or kind not looked at: covered by the row above)
+                nacc += 1
+                known_empty = bool(emp) and emp[0] != 0
+                scanned = any("field_names" in t and ("next(" in t or t.startswith("all(") or t.startswith("any(")) for t, v in cs)
+                if not known_empty and not scanned:
+                    badp += 1
+            if nacc and not badp:
+                ck.ok("C11.R3", k2, fn=b.path)
+            else:
+                ck.bad("C11.R3", k2, where(b.raw["sp"]), "%d accepting event path(s) never compared the directive's field names with the event's fields although the list may be non-empty: "
+                       "`target[field]=level` would apply to events without that field" % badp if nacc else "no accepting event path found", fn=b.path)
 
 
 def show_term(b, op):
